@@ -250,7 +250,7 @@ impl<'a> Hist<'a> {
         self.senders.values().all(|(_, _, d1)| *d1 <= t)
     }
 
-    fn base_facts(&self, f: Finding) -> Finding {
+    pub fn base_facts(&self, f: Finding) -> Finding {
         f.fact("flavour", format!("{:?}", self.sc.q.flavour))
             .fact("futures", self.sc.q.futures)
             .fact("n", self.n as u64)
